@@ -109,7 +109,7 @@ def rxso3_Ws(x):
     B[condition2] = (theta_c2 - theta_c2.sin()) / (theta2[condition2] * theta_c2)
 
     # condition3
-    C[sigma_larger] = (scale[sigma_larger] - 1.0) / sigma[sigma_larger]
+    C[sigma_larger] = torch.expm1(sigma[sigma_larger]) / sigma[sigma_larger]
     sigma_c3, scale_c3, sigma2_c3 = sigma[condition3], scale[condition3], sigma2[condition3]
     A[condition3] = (1.0 + (sigma_c3 - 1.0) * scale_c3) / sigma2_c3
     B[condition3] = (0.5 * sigma2_c3 * scale_c3 + scale_c3 - 1.0 - sigma2_c3 * scale_c3) / (sigma2_c3 * sigma_c3)
@@ -120,6 +120,14 @@ def rxso3_Ws(x):
     a_c4, b_c4, c_c4 = scale_c4 * theta_c4.sin(), scale_c4 * theta_c4.cos(), (theta2_c4 + sigma2_c4)
     A[condition4] = (a_c4 * sigma_c4 + (1 - b_c4) * theta_c4) / (theta_c4 * c_c4)
     B[condition4] = (C[condition4] - ((b_c4 - 1) * sigma_c4 + a_c4 * theta_c4) / c_c4) * theta2_inv_c4
+
+    # both small: the closed forms above cancel catastrophically, use the series of
+    # A = int_0^1 e^(s sigma) sin(s theta) / theta ds, B = int_0^1 e^(s sigma) (1 - cos(s theta)) / theta^2 ds
+    small = sigma_larger & (sigma.abs() < torch.finfo(sigma.dtype).eps**0.25) \
+        & (theta < torch.finfo(theta.dtype).eps**0.25)
+    s1, s2, t2 = sigma[small], sigma2[small], theta2[small]
+    A[small] = 0.5 + s1 / 3 + s2 / 8 + s2 * s1 / 30 - t2 / 24 - s1 * t2 / 30
+    B[small] = 1.0 / 6 + s1 / 8 + s2 / 20 + s2 * s1 / 72 - t2 / 120 - s1 * t2 / 144
 
     K = vec2skew(rotation)
     A = A.unsqueeze(-1).unsqueeze(-1)
